@@ -243,7 +243,6 @@ func VerifH_C23_inc_counter() {
 	vr.Cover("done")
 }
 
-
 // C23: OAEP decryption with distinct label and MGF hashes. The size guard must be
 // taken from the label hash (it fixes the encoded-message layout): too small a key
 // is refused with ErrDecryption, and no ciphertext makes the routine panic. The raw
@@ -271,5 +270,40 @@ func VerifH_C23_oaep_decrypt_two_hashes() {
 	if err == nil {
 		vr.Assert(len(out) <= k-2*hLen-2, "a decoded message fits the space the label hash leaves")
 		vr.Cover("decoded")
+	}
+}
+
+// C23/C03: a signature is an octet string of exactly the modulus length (RFC 8017 §8.1.2,
+// §8.2.2 step 1). With the public operation and the encoding check made to succeed
+// whenever they are reached, both verifiers must still refuse every other length.
+// verif: covers=right-length,wrong-length
+func VerifH_C23_signature_length_is_modulus_length() {
+	crypto.RegisterHash(crypto.MD4, func() hash.Hash { return &mHash{size: 2} })
+	k := 13
+	n := new(big.Int).Lsh(big.NewInt(1), uint(8*k-1))
+	n.Add(n, big.NewInt(1))
+	pub := &PublicKey{N: n, E: big.NewInt(3)}
+	hashed := vr.Bytes("hashed", 1)
+	pss := vr.Bool("pss")
+	vr.Stub("github.com/zmap/zcrypto/rsa.encrypt", func(p *PublicKey, in []byte) ([]byte, error) {
+		if pss {
+			return make([]byte, k), nil
+		}
+		return pkcs1v15ConstructEM(p, crypto.Hash(0), hashed)
+	})
+	vr.Stub("github.com/zmap/zcrypto/rsa.emsaPSSVerify", func(mHash, em []byte, emBits, sLen int, h hash.Hash) error { return nil })
+	sig := vr.Bytes("sig", vr.Int("sigLen", k-2, k+1))
+	var err error
+	if pss {
+		err = VerifyPSS(pub, crypto.MD4, hashed, sig, nil)
+	} else {
+		err = VerifyPKCS1v15(pub, crypto.Hash(0), hashed, sig)
+	}
+	if len(sig) == k {
+		vr.Assert(err == nil, "a signature of the modulus length reaches the public operation and the encoding check")
+		vr.Cover("right-length")
+	} else {
+		vr.Assert(err != nil, "a signature of any other length is refused")
+		vr.Cover("wrong-length")
 	}
 }
